@@ -187,6 +187,18 @@ CLAIMED = {
             "Trusted: rustc nightly MIR; recovery of format! templates from lowered constants. The async and "
             "list-helper scanners are deliberately not armed (reasons in rules/c15.py).",
             "DESIGN.md §4 C15"),
+    "C20": ("derive-name scope table, exhaustive decision table of extract_derives by constant propagation, "
+            "hash-iteration and ancestor-order rules on the field list, token scan of struct/enum templates, template "
+            "path linkage of the JSON helpers",
+            "Decides the conditions under which delegating to serde and the std derives is faithful: every accepted "
+            "derive name resolves to a macro in scope (Display does not: listed); the derive set is closed under Rust's "
+            "prerequisites (Eq=>PartialEq, Ord=>PartialOrd+Eq+PartialEq) for every single-derive input; struct fields "
+            "reach the emitter in declaration order with ancestors first and no hash iteration; no serde attribute is "
+            "attached by the struct/enum templates; to_json/from_json/json_stringify link serde_json and the canonical "
+            "error helpers. Round trip, structural ==, lexicographic Ord and Hash/Eq consistency for all values are "
+            "properties of serde/std (trusted base), not decided here.",
+            "Trusted: serde, serde_json, std derives; rustc nightly MIR; the evaluator's Vec/iterator model.",
+            "DESIGN.md §4 C20"),
 }
 
 NOT_APPLICABLE = {
